@@ -146,6 +146,8 @@ class GeometricConstraintsRowWise(GeometricConstraints):
         rotate_step: float,
         property_boundary,
         no_go_boundaries,
+        min_rotation_deg=None,
+        max_rotation_deg=None,
     ):
         super().__init__()
         self.perimeter_spacing_ratio = perimeter_spacing_ratio
@@ -154,6 +156,9 @@ class GeometricConstraintsRowWise(GeometricConstraints):
         self.spacing_step = spacing_step
         self.min_rotation = min_rotation
         self.max_rotation = max_rotation
+        # rotations as the user gave them (degrees); radians -> degrees does not round-trip exactly
+        self.min_rotation_deg = min_rotation * RAD_TO_DEG if min_rotation_deg is None else min_rotation_deg
+        self.max_rotation_deg = max_rotation * RAD_TO_DEG if max_rotation_deg is None else max_rotation_deg
         self.rotate_step = rotate_step
         self.property_boundary = property_boundary
         self.no_go_boundaries = no_go_boundaries
@@ -165,8 +170,8 @@ class GeometricConstraintsRowWise(GeometricConstraints):
             'min_spacing': self.min_spacing,
             'max_spacing': self.max_spacing,
             'spacing_step': self.spacing_step,
-            'min_rotation': self.min_rotation * RAD_TO_DEG,
-            'max_rotation': self.max_rotation * RAD_TO_DEG,
+            'min_rotation': self.min_rotation_deg,
+            'max_rotation': self.max_rotation_deg,
             'rotate_step': self.rotate_step,
             'property_boundary': self.property_boundary,
             'no_go_boundaries': self.no_go_boundaries,
